@@ -587,6 +587,21 @@ def run(ctx):
             pos_cases.append({'bind': c['bind'], 'e': e, 'want': want, 'what': 'position', 'bound': c['scope']})
     for e, want, what in binder_cases(rng):
         pos_cases.append({'bind': [], 'e': e, 'want': want, 'what': what, 'bound': []})
+    # the same with the introduced name ALSO bound outside, to another value: the innermost binding wins (seeded change C10_f: the scope was
+    # searched from the outermost context)
+    for _ in range(4):
+        p = gen_name(rng)
+        if any(w in ('in', 'item') for w in p):
+            continue
+        s1 = spell(rng, p)
+        outer = [[p, 1000], [['zz'], 1]]
+        for e, want, what in (('{%s: 5, r: %s + 1}.r' % (s1, s1), 6, 'context entry hides an outer binding'),
+                              ('{f: function(%s) %s + 1, r: f(5)}.r' % (s1, s1), 6, 'formal parameter hides an outer binding'),
+                              ('for %s in [5] return %s + 1' % (s1, s1), [6], 'iteration variable hides an outer binding'),
+                              ('some %s in [5] satisfies %s = 5' % (s1, s1), True, 'quantified variable hides an outer binding'),
+                              ('(for %s in [5] return %s + 1)[1] + %s' % (s1, s1, s1), 1006, 'outer binding visible again behind the binder'),
+                              ('%s + zz' % s1, 1001, 'outer binding')):
+            pos_cases.append({'bind': outer, 'e': e, 'want': want, 'what': what, 'bound': [p, ['zz']]})
     # the keyword `in` as the first part of an iteration variable: no variable name before it, the text is an ordinary name (fixed 83bd59b: was a panic)
     for text in ('for in+x in [1] return 1', 'some in-x in [1] satisfies true', 'every in.a in [1] satisfies true'):
         pos_cases.append({'bind': [[['zz'], 1]], 'e': text, 'want': 'parse', 'what': 'in as first part', 'bound': [['zz']]})
